@@ -85,24 +85,51 @@ let to_q (e : sexp) : Model.q =
     (match to_z d with M.Zpos p -> { M.qnum = to_z n; qden = p } | _ -> failwith "bad denominator")
   | _ -> failwith "expected (num den)"
 
-let run (op : string) (args : sexp list) : string =
-  match op, args with
-  | "new64", [lib; u; d; c; k; v] -> string_of_z (M.new64 (to_lib lib) (to_cexprs u) (to_zlist d) (to_cexpr c) (to_const k) (to_z v))
-  | "get64", [lib; u; d; c; k; v] -> string_of_z (M.get64 (to_lib lib) (to_cexprs u) (to_zlist d) (to_cexpr c) (to_const k) (to_z v))
-  | "new32", [lib; u; d; c; k; v] -> string_of_z (M.new32 (to_lib lib) (to_cexprs u) (to_zlist d) (to_cexpr c) (to_const k) (to_z v))
-  | "get32", [lib; u; d; c; k; v] -> string_of_z (M.get32 (to_lib lib) (to_cexprs u) (to_zlist d) (to_cexpr c) (to_const k) (to_z v))
-  | "rebase64", [lib; ul; ur; d; v] -> string_of_z (M.rebase64 (to_lib lib) (to_cexprs ul) (to_cexprs ur) (to_zlist d) (to_z v))
-  | "rebase32", [lib; ul; ur; d; v] -> string_of_z (M.rebase32 (to_lib lib) (to_cexprs ul) (to_cexprs ur) (to_zlist d) (to_z v))
-  | "coef64", [c] -> string_of_z (M.coef64 (to_cexpr c))
-  | "coef32", [c] -> string_of_z (M.coef32 (to_cexpr c))
-  | "qnew", [u; d; c; k; v] -> string_of_q (M.q_new (to_cexprs u) (to_zlist d) (to_cexpr c) (to_const k) (to_q v))
-  | "qget", [u; d; c; k; v] -> string_of_q (M.q_get (to_cexprs u) (to_zlist d) (to_cexpr c) (to_const k) (to_q v))
-  | "qrebase", [ul; ur; d; v] -> string_of_q (M.q_rebase (to_cexprs ul) (to_cexprs ur) (to_zlist d) (to_q v))
-  | "znew", [u; d; c; k; v] -> string_of_z (M.z_new (to_cexprs u) (to_zlist d) (to_cexpr c) (to_const k) (to_z v))
-  | "zget", [u; d; c; k; v] -> string_of_z (M.z_get (to_cexprs u) (to_zlist d) (to_cexpr c) (to_const k) (to_z v))
-  | "zrebase", [ul; ur; d; v] -> string_of_z (M.z_rebase (to_cexprs ul) (to_cexprs ur) (to_zlist d) (to_z v))
-  | "coefq", [c] -> string_of_q (M.coef_exact (to_cexpr c))
-  | _ -> failwith ("unknown op or arity: " ^ op)
+let to_bool = function A "1" | A "true" -> true | A "0" | A "false" -> false | _ -> failwith "bad bool"
+let to_binop = function
+  | A "add" -> M.BAdd | A "sub" -> M.BSub | A "mul" -> M.BMul | A "div" -> M.BDiv | A "rem" -> M.BRem
+  | A "max" -> M.BMax | A "min" -> M.BMin | _ -> failwith "bad binop"
+let to_cmpop = function
+  | A "eq" -> M.CEq | A "ne" -> M.CNe | A "lt" -> M.CLt | A "le" -> M.CLe | A "gt" -> M.CGt | A "ge" -> M.CGe
+  | _ -> failwith "bad cmpop"
+let to_unop = function
+  | A "neg" -> M.UNeg | A "abs" -> M.UAbs | A "signum" -> M.USignum | A "recip" -> M.URecip | A "sqrt" -> M.USqrt
+  | _ -> failwith "bad unop"
+let to_rnd = function
+  | A "floor" -> M.RFloor | A "ceil" -> M.RCeil | A "round" -> M.RRound | A "trunc" -> M.RTrunc | A "fract" -> M.RFract
+  | _ -> failwith "bad rounding"
+
+let to_hreq (tv : sexp -> 'v) (e : sexp) : 'v M.hreq =
+  match e with
+  | L [A "bin"; o; ur; b] -> M.HRBin (to_binop o, to_cexprs ur, tv b)
+  | L [A "same"; o; b] -> M.HRSame (to_binop o, tv b)
+  | L [A "un"; o] -> M.HRUn (to_unop o)
+  | _ -> failwith "bad history op"
+
+let to_req (tv : sexp -> 'v) (e : sexp) : 'v M.req =
+  match e with
+  | L [A "new"; u; d; c; k; v] -> M.RNew (to_cexprs u, to_zlist d, to_cexpr c, to_const k, tv v)
+  | L [A "get"; u; d; c; k; v] -> M.RGet (to_cexprs u, to_zlist d, to_cexpr c, to_const k, tv v)
+  | L [A "rebase"; ac; ul; ur; d; v] -> M.RRebase (to_bool ac, to_cexprs ul, to_cexprs ur, to_zlist d, tv v)
+  | L [A "bin"; ac; o; ul; ur; d; a; b] -> M.RBin (to_bool ac, to_binop o, to_cexprs ul, to_cexprs ur, to_zlist d, tv a, tv b)
+  | L [A "cmp"; ac; o; ul; ur; d; a; b] -> M.RCmp (to_bool ac, to_cmpop o, to_cexprs ul, to_cexprs ur, to_zlist d, tv a, tv b)
+  | L [A "pcmp"; ac; ul; ur; d; a; b] -> M.RPcmp (to_bool ac, to_cexprs ul, to_cexprs ur, to_zlist d, tv a, tv b)
+  | L [A "muladd"; ac; u; ua; ub; da; ds; x; a; b] ->
+    M.RMulAdd (to_bool ac, to_cexprs u, to_cexprs ua, to_cexprs ub, to_zlist da, to_zlist ds, tv x, tv a, tv b)
+  | L [A "round"; r; u; d; c; k; v] -> M.RRoundTo (to_rnd r, to_cexprs u, to_zlist d, to_cexpr c, to_const k, tv v)
+  | L [A "un"; o; a] -> M.RUn (to_unop o, tv a)
+  | L [A "hist"; ac; u; d; init; L ops] -> M.RHist (to_bool ac, to_cexprs u, to_zlist d, tv init, List.map (to_hreq tv) ops)
+  | L [A "coef"; c] -> M.RCoef (to_cexpr c)
+  | _ -> failwith "bad request"
+
+(* <id> <f32|f64|q|z> <std|core|-> <request> *)
+let run (st : string) (lib : sexp) (r : sexp) : string =
+  match st with
+  | "f64" -> String.concat " " (List.map string_of_z (M.run64 (to_lib lib) (to_req to_z r)))
+  | "f32" -> String.concat " " (List.map string_of_z (M.run32 (to_lib lib) (to_req to_z r)))
+  | "q" -> String.concat " " (List.map string_of_q (M.q_run (to_req to_q r)))
+  | "z" -> String.concat " " (List.map string_of_z (M.z_run (to_req to_z r)))
+  | _ -> failwith ("unknown storage class: " ^ st)
 
 let () =
   let ic = if Array.length Sys.argv > 1 then open_in Sys.argv.(1) else stdin in
@@ -111,8 +138,8 @@ let () =
       let line = input_line ic in
       if String.length line > 0 && line.[0] <> '#' then begin
         match parse_all (tokenize line) with
-        | A id :: A op :: args ->
-          let r = (try run op args with Failure m -> "ERROR:" ^ m | Division_by_zero -> "ERROR:div0" | Stack_overflow -> "ERROR:stack") in
+        | [A id; A st; lib; r] ->
+          let r = (try run st lib r with Failure m -> "ERROR:" ^ m | Division_by_zero -> "ERROR:div0" | Stack_overflow -> "ERROR:stack") in
           print_string id; print_char ' '; print_string r; print_char '\n'
         | _ -> print_string "? ERROR:bad line\n"
       end
